@@ -9,6 +9,8 @@ from vlib import w as W
 from vlib.core import Ob
 
 PROPERTY_ID = "C10"
+ENGINE = 'E1 CrossHair 0.0.110 (z3) on the real code'
+TECHNIQUE = 'CrossHair symbolic execution of to_rich_dict / from_rich_dict / deserialise of views, sequences, indel and feature maps, aligned rows and trees in symbolic states (slice state, gap layout, termini flag, branch lengths); observational equality decided on all paths'
 CLAIM = (
     "for sequence views in ANY invariant-satisfying state, indel maps and feature maps with symbolic coordinates, and alignment rows built from them: "
     "to_rich_dict followed by the registered deserialiser gives an object that reads the same residues index by index, reports the same parent coordinates and the same map."
